@@ -241,7 +241,7 @@ def tlc(work, module, cfg_text, workers=1, timeout=1800, heap=None, extra=None, 
     env = dict(os.environ)
     jtmp = work.path("jtmp")   # TLC unpacks its standard modules into java.io.tmpdir on every start: keep that out of /tmp
     os.makedirs(jtmp, exist_ok=True)
-    env["JAVA_TOOL_OPTIONS"] = (env.get("JAVA_TOOL_OPTIONS", "") + " -Djava.io.tmpdir=%s" % jtmp).strip()
+    env["JAVA_TOOL_OPTIONS"] = (env.get("JAVA_TOOL_OPTIONS", "") + " -Djava.io.tmpdir=%s -Xss256m" % jtmp).strip()   # deep recursive operators (CcSyntax's parser) need stack
     if heap:
         env["JAVA_TOOL_OPTIONS"] = (env.get("JAVA_TOOL_OPTIONS", "") + " -Xmx%s" % heap).strip()
     t = time.time()
